@@ -6,3 +6,4 @@ pub mod fmt;
 pub mod known;
 pub mod props;
 pub mod util;
+pub mod writer;
